@@ -28,6 +28,9 @@ SHARED = {
     "map_u8_string": "map(u8,str)", "map_string_vec_i32": "map(str,vec(i32))", "map_i32_map_char_bool": "map(i32,map(char,bool))",
     "map_bool_unit": "map(bool,unit)", "map_u64_i64": "map(u64,i64)",
     "opt_vec_tup": "opt(vec(tup(u8,char)))", "vec_map": "vec(map(u16,opt(str)))", "tup_opt_arr": "tup(opt(u16),arr(2,i8),unit)",
+    # a None inside the payload of a Some, at a distance (directly inside it is the documented lossy shape)
+    "opt_vec_opt": "opt(vec(opt(u8)))", "opt_tup_opt": "opt(tup(opt(u8),u8))", "opt_map_opt": "opt(map(u8,opt(str)))",
+    "vec_opt_vec_opt": "vec(opt(vec(opt(bool))))",
 }
 
 
@@ -72,6 +75,10 @@ SERDE_ONLY = {
     "vec_record": "seq(%s)" % RECORD, "tup_record_u8": "tup(%s,u8)" % RECORD, "vec_event": "seq(%s)" % EVENT,
     "tup_allskip_event_u8": "tup(%s,%s,u8)" % (ALLSKIP, EVENT), "opt_record": "opt(%s)" % RECORD,
     "OptOpt": "st{a:opt(opt(u8))}", "vec_itag": "seq(%s)" % ITAG, "vec_untagged": "seq(%s)" % UNTAGGED,
+    # an enum value directly followed by an optional one in the same array (a unit variant is a bare string: nothing closes it)
+    "tup_color_opt": "tup(%s,opt(u8))" % COLOR, "vec_opt_color": "seq(opt(%s))" % COLOR,
+    "tup_ext_opt": "tup(%s,opt(%s),%s)" % (EXT, EXT, EXT), "vec_opt_ext": "seq(opt(%s))" % EXT,
+    "TsColorOpt": "ts(%s,opt(str),%s,opt(unit))" % (COLOR, COLOR),
 }
 
 INT_KINDS = {"u8": (0, 2**8 - 1), "u16": (0, 2**16 - 1), "u32": (0, 2**32 - 1), "u64": (0, 2**64 - 1),
